@@ -7,6 +7,7 @@
 #include <string.h>
 
 #include "common.h"
+#include "generated/cjet_config.h"
 
 static const char *const REQ_TO[] = {NULL, "0.0005", "0.001", "0.25", "2", "\"x\"", "-1", "1e30", "0", "true", "0.0009999", "5.5"};
 static const double REQ_TO_V[] = {0, 0.0005, 0.001, 0.25, 2, -2, -1, 1e30, 0, -2, 0.0009999, 5.5}; /* -2 = not a number */
@@ -433,9 +434,112 @@ static void run_orderings(void)
 	xp_state(hash_mix(hash_mix((uint64_t)sub * 1000 + (uint64_t)perm_index * 10 + (uint64_t)split_at, (uint64_t)kk * 2 + (uint64_t)ok + 4 * (uint64_t)owner_empty), cl_transcript_hash(K) ^ cl_transcript_hash(O)));
 }
 
+
+/* ---- section 2: deadlines of requests around the owner's in-flight limit -------------------------------------------------------
+ * A silent owner receives n requests with deadlines 1 s, 2 s, ... (or all equal); those beyond its limit are refused at once.  Then
+ * the clock walks from deadline to deadline: a request that was accepted gets its timeout error exactly at its own deadline (nothing
+ * 1 ns earlier), a request that was refused never gets a second answer, its deadline passes without anything happening - and without
+ * anything released being touched. */
+static void run_limit(void)
+{
+	int cap = 1 << CONFIG_ROUTING_TABLE_ORDER;
+	int n = cap / 2 + xp_choose(cap / 2 + 8, XP_SCENARIO, "requests");
+	int equal = xp_choose(2, XP_SCENARIO, "equal-deadlines");
+	enum cl_kind kk = xp_choose(2, XP_SCENARIO, "caller-transport") ? CL_WS : CL_RAW;
+	int late_reply = xp_choose(2, XP_SCENARIO, "owner-replies-after-the-deadlines");
+	if (n > 72) {
+		n = 72;
+	}
+	struct sim_opts o = {0};
+	jx_boot(&o);
+	int O = jx_open(CL_RAW), K = jx_open(kk), B = jx_open(CL_RAW);
+	jx_sendf(O, "{\"id\":\"a\",\"method\":\"add\",\"params\":{\"path\":\"e\",\"value\":1}}");
+	jx_settle();
+	uint64_t t0 = sim_now();
+	bool refused[80] = {false};
+	int nref = 0;
+	for (int i = 0; i < n; i++) {
+		int from = clients[K].nmsgs;
+		jx_sendf(K, "{\"id\":%d,\"method\":\"set\",\"params\":{\"path\":\"e\",\"value\":%d,\"timeout\":%d}}", 100 + i, i, equal ? 1 : 1 + i); /* whole seconds: exactly representable */
+		jx_settle();
+		char idt[16];
+		snprintf(idt, sizeof(idt), "%d", 100 + i);
+		struct cl_msg *m = NULL;
+		int c = count_answers(K, idt, from, &m);
+		if (c > 1) {
+			fail_t("limit:answered-twice-at-once", "request %d got %d answers immediately", 100 + i, c);
+		}
+		if (c == 1) {
+			if (m->cls != MC_ERROR) {
+				fail_t("limit:immediate-result", "request %d got a result although the owner never answered", 100 + i);
+			}
+			refused[i] = true;
+			nref++;
+		}
+	}
+	if (count_routed(O, 0) != n - nref) {
+		fail_t("limit:accepted-request-not-delivered", "%d requests were not refused but %d were delivered to the owner", n - nref, count_routed(O, 0));
+	}
+	xp_count("refused_at_the_limit", nref);
+	xp_logf("## %d requests to a silent owner (%d refused at once), deadlines %s, %s caller", n, nref, equal ? "equal" : "1 s apart", kk == CL_WS ? "websocket" : "raw");
+	/* walk the deadlines */
+	for (int i = 0; i < n; i++) {
+		uint64_t dl = t0 + 1000000000ULL + (equal ? 0 : (uint64_t)i * 1000000000ULL);
+		if (dl > sim_now() + 1) {
+			sim_advance(dl - sim_now() - 1);
+			jx_settle();
+		}
+		char idt[16];
+		snprintf(idt, sizeof(idt), "%d", 100 + i);
+		if (!refused[i] && !equal && count_answers(K, idt, 0, NULL) != 0) {
+			fail_t("limit:timeout-early", "request %d was answered before its deadline", 100 + i);
+		}
+		if (dl > sim_now()) {
+			sim_advance(dl - sim_now());
+		}
+		jx_settle();
+		int c = count_answers(K, idt, 0, NULL);
+		if (c != 1) {
+			char key[120];
+			snprintf(key, sizeof(key), "limit:%s-request-has-%d-answers-at-its-deadline", refused[i] ? "refused" : "accepted", c);
+			fail_t(key, "request %d (%s) has %d answers when its deadline has passed", 100 + i, refused[i] ? "refused at the owner's limit" : "accepted", c);
+		}
+	}
+	if (late_reply) {
+		for (int i = 0; i < clients[O].nmsgs; i++) {
+			if (clients[O].msgs[i].cls == MC_ROUTED) {
+				jx_sendf(O, "{\"id\":\"%s\",\"result\":\"late\"}", msg_id(&clients[O].msgs[i])->valuestring);
+			}
+		}
+		jx_settle();
+	}
+	jx_expire_all_timers(4);
+	for (int i = 0; i < n; i++) {
+		char idt[16];
+		snprintf(idt, sizeof(idt), "%d", 100 + i);
+		if (count_answers(K, idt, 0, NULL) != 1) {
+			fail_t("limit:answer-count-changed-later", "request %d has %d answers in the end", 100 + i, count_answers(K, idt, 0, NULL));
+		}
+	}
+	jx_sendf(B, "{\"id\":\"probe\",\"method\":\"info\"}");
+	jx_settle();
+	if (!jx_is_success(jx_find_response_str(B, "probe", 0))) {
+		fail_t("limit:daemon-stopped-serving", "a bystander's request is no longer answered");
+	}
+	jx_close_all();
+	jx_check_idle_baseline("limit:left-behind:");
+	jx_check_hygiene("limit:hygiene:");
+	xp_nontrivial();
+	xp_transition();
+	xp_outcome((uint64_t)nref);
+	xp_state(hash_mix((uint64_t)n * 8 + (uint64_t)equal * 4 + (uint64_t)(kk == CL_WS) * 2 + (uint64_t)late_reply, 91));
+}
+
 static void run(void)
 {
-	if (xp_param("section", 0) == 1) {
+	if (xp_param("section", 0) == 2) {
+		run_limit();
+	} else if (xp_param("section", 0) == 1) {
 		run_orderings();
 	} else {
 		run_values();
@@ -446,6 +550,6 @@ const struct driver drv_c14 = {
     .name = "c14",
     .property = "C14",
     .run = run,
-    .rule = "section 0: product {12 request timeout forms} x {5 element timeout forms} x {set, call} x {expiry + late reply, reply 1 ns before the deadline, two requests with different deadlines} x caller transport on the virtual clock (deadline - 1 ns: nothing; deadline: exactly one error in that iteration); section 1: every non-empty subset of {owner reply, expiry, caller gone, owner gone, second request's expiry, a fresh request of the second caller} made ready at the same instant x every dispatch order x every split of the batch into two iterations x transports x FIN/reset x {the owner still owns the element, the owner removed it while the requests were in flight}; afterwards a new peer connects and everybody leaves; every execution is non-trivial",
+    .rule = "section 0: product {12 request timeout forms} x {5 element timeout forms} x {set, call} x {expiry + late reply, reply 1 ns before the deadline, two requests with different deadlines} x caller transport on the virtual clock (deadline - 1 ns: nothing; deadline: exactly one error in that iteration); section 1: every non-empty subset of {owner reply, expiry, caller gone, owner gone, second request's expiry, a fresh request of the second caller} made ready at the same instant x every dispatch order x every split of the batch into two iterations x transports x FIN/reset x {the owner still owns the element, the owner removed it while the requests were in flight}; afterwards a new peer connects and everybody leaves; section 2: a silent owner gets between half and more than its in-flight limit of requests with equal or staggered deadlines; the refused ones are never answered again, the accepted ones exactly at their own deadline, late replies have no effect; every execution is non-trivial",
     .assumptions = "the deadline is compared with (uint64_t)(seconds*1e9) +- 1 ns|timeouts above 1e12 s are only required to arm a timer of at least 1e15 ns|the simulated epoll reports whatever order the explorer picks for descriptors that became ready in the same instant (Linux gives no ordering guarantee)",
 };
